@@ -162,6 +162,37 @@ mal += ["# no origin at all", "zone m - " + hx(b"a 60 A 1.1.1.1\n"), "zone m - "
         case("m", O, "a 60 TXT \"\\½\"\n"), case("m", O, "a 60 TXT \"\\٣٣٣\"\n")]
 files["malformed.case"] = mal
 
+# ---- names at the length limits, and the same relative text across $ORIGIN changes (seeded changes C20-1, C20-2)
+def big(n_last): return ".".join(["a" * 63, "b" * 63, "c" * 63, "d" * n_last])
+def musterr(origin, text): return f"zone m {name(origin)} {hx(text.encode())} {name(origin)} !"
+B255, B256 = big(49), big(50)          # + example.com. = 255 / 256 octets on the wire
+lim = ["# 63.63.63.49 under example.com. is exactly 255 octets: must load, written relative or absolute, as owner or in RDATA",
+       case("m", O, f"{B255} 60 IN A 1.2.3.4\n", recs=[rec(name(B255 + ".example.com"), 1, 60, A("1.2.3.4"))]),
+       case("m", O, f"{B255}.example.com. 60 IN A 1.2.3.4\n", recs=[rec(name(B255 + ".example.com"), 1, 60, A("1.2.3.4"))]),
+       case("m", O, f"w 60 IN CNAME {B255}\n", recs=[rec(name("w.example.com"), 5, 60, N(B255 + ".example.com"))]),
+       case("m", O, f"w 60 IN MX 10 {B255}\nw 60 SRV 1 2 3 {B255}\nw 60 NS {B255}\n",
+            recs=[rec(name("w.example.com"), 15, 60, "MX,10," + name(B255 + ".example.com")),
+                  rec(name("w.example.com"), 33, 60, "SRV,1,2,3," + name(B255 + ".example.com")),
+                  rec(name("w.example.com"), 2, 60, N(B255 + ".example.com"))]),
+       case("m", O, f"w 60 IN SOA {B255} {B255} 1 2 3 4 5\n",
+            recs=[rec(name("w.example.com"), 6, 60, "SOA," + name(B255 + ".example.com") + "," + name(B255 + ".example.com") + ",1,2,3,4,5")]),
+       case("m", "other.", f"$ORIGIN example.com.\n{B255} 60 IN A 1.2.3.4\nw 60 CNAME {B255}\n", exp_origin="example.com.",
+            recs=[rec(name(B255 + ".example.com"), 1, 60, A("1.2.3.4")), rec(name("w.example.com"), 5, 60, N(B255 + ".example.com"))]),
+       "# 256 octets / a 64-octet label: not a domain name, must be an error",
+       musterr(O, f"{B256} 60 IN A 1.2.3.4\n"), musterr(O, f"{B256}.example.com. 60 IN A 1.2.3.4\n"), musterr(O, f"w 60 IN NS {B256}\n"),
+       musterr(O, "x" * 64 + " 60 IN A 1.2.3.4\n"), musterr(O, "w 60 IN MX 1 " + "x" * 64 + ".example.com.\n"),
+       case("m", O, "x" * 63 + " 60 IN A 1.2.3.4\n", recs=[rec(name("x" * 63 + ".example.com"), 1, 60, A("1.2.3.4"))]),
+       "# the same relative owner text / RDATA name after $ORIGIN denotes a different name; inherited owners follow the new one",
+       case("m", O, "x 60 A 1.1.1.1\n$ORIGIN other.\nx 60 A 2.2.2.2\n 60 TXT t\n", exp_origin="other.",
+            recs=[rec(name("x.example.com"), 1, 60, A("1.1.1.1")), rec(name("x.other"), 1, 60, A("2.2.2.2")), rec(name("x.other"), 16, 60, TXT(b"t"))]),
+       case("m", O, "x 60 A 1.1.1.1\n; c\n\n$TTL 5\n$ORIGIN sub.example.com. ; down\n  ; still nothing\nx A 2.2.2.2\n\tNS n\n$ORIGIN com.\nx A 3.3.3.3\n", exp_origin="com.",
+            recs=[rec(name("x.example.com"), 1, 60, A("1.1.1.1")), rec(name("x.sub.example.com"), 1, 5, A("2.2.2.2")),
+                  rec(name("x.sub.example.com"), 2, 5, N("n.sub.example.com")), rec(name("x.com"), 1, 5, A("3.3.3.3"))]),
+       case("m", O, "a 60 NS n\n$ORIGIN other.\nb 60 NS n\nb 60 MX 1 n\n", exp_origin="other.",
+            recs=[rec(name("a.example.com"), 2, 60, N("n.example.com")), rec(name("b.other"), 2, 60, N("n.other")), rec(name("b.other"), 15, 60, "MX,1," + name("n.other"))]),
+       ]
+files["name-limits-and-origin-switch.case"] = lim
+
 for fn, lines in files.items():
     with open(os.path.join(HERE, fn), "w") as f:
         f.write("\n".join(lines) + "\n")
